@@ -26,6 +26,41 @@ MAX_EVENTS = int(os.environ.get("C13_MAX_EVENTS", "400000"))
 N_EVENTS = [0]
 
 
+OUT_PATH = [None]
+
+
+def hard_stop(what, **info):
+    """a hard monitor bound was exceeded while lian is still running (a loop that the proved bounds say must be
+    over by now): record it as the outcome of the run and leave at once, instead of waiting for the CPU limit.
+    os._exit, not an exception: lian has bare `except:` clauses on the way up."""
+    OUT["status"] = "hard_stop"
+    OUT["hard_stop"] = dict(info, what=what)
+    OUT["cpu_s"] = round(time.process_time(), 3)
+    for fr in OUT["frames"]:
+        for k in ("_wl", "_it"):
+            fr.pop(k, None)
+        fr.pop("events", None); fr["detail"] = False
+    for t in OUT["taint"]:
+        for k in ("_index", "_prop", "_slot", "_slot_ids", "acts_t", "acts_f"):
+            t.pop(k, None)
+        t["detail"] = False
+    for k in ("closure", "scopes"):
+        for r in OUT[k]:
+            for kk in [x for x in r if x.startswith("_")] + ["wls"]:
+                r.pop(kk, None)
+    for e in OUT["p3"]:
+        e.pop("_inv", None); e.pop("_initfail", None)
+    for e in OUT.get("p2_roots", []):
+        e.pop("_inv", None); e.pop("_initfail", None)
+    for d in OUT.get("dfs", []):
+        d.pop("_index", None)
+    try:
+        dump(OUT_PATH[0])
+    finally:
+        sys.stdout.flush()
+        os._exit(4)
+
+
 def dump(path):
     OUT["t_total"] = round(time.time() - T_START, 3)
     tmp = path + ".tmp"
@@ -36,6 +71,7 @@ def dump(path):
 
 def main():
     out_path, cpu_limit = sys.argv[1], int(float(sys.argv[2]))
+    OUT_PATH[0] = out_path
     lian_argv = sys.argv[3:]
     stack_file = open(out_path + ".stack", "w")
     faulthandler.register(signal.SIGXCPU, file=stack_file, all_threads=False, chain=False)
@@ -89,6 +125,11 @@ def main():
         "search_impacted_parent_nodes": ba.P1BasicSemanticAnalysis.search_impacted_parent_nodes,
         "summarize_symbol_decls": sh.UnitScopeHierarchyAnalysis.summarize_symbol_decls,
         "strict_eval": util.strict_eval,
+        "reconstruct_define_use_path": ta.PathFinder.reconstruct_define_use_path,
+        "is_folding_too_large": getattr(ss.StmtStates, "is_folding_too_large", None),
+        "compute_two_states": ss.StmtStates.compute_two_states,
+        "p2_init_compute_frame": ps.P2PrelimSemanticAnalysis.init_compute_frame,
+        "p2_run": ps.P2PrelimSemanticAnalysis.run,
     }
     for k, fn in anchored.items():
         try:
@@ -131,7 +172,7 @@ def main():
         else:
             ent["truncated"] = True
 
-    CUR = {"frame": None, "entry": None, "clo": None, "scope": None, "taint": None}
+    CUR = {"frame": None, "entry": None, "clo": None, "scope": None, "taint": None, "p2root": None}
     KEEP = []          # keep frames alive so that id() stays unique
     FRAME_REC = {}     # id(frame) -> record
 
@@ -172,13 +213,23 @@ def main():
     cs.SimpleWorkList.peek, cs.SimpleWorkList.pop, cs.SimpleWorkList.__init__ = peek, pop, wl_init
 
     orig_css = ps.P2PrelimSemanticAnalysis.compute_stmt_states
+    OUT["stmt_cpu"] = {"n": 0, "sum": 0.0, "max": 0.0, "argmax": None}
 
     def compute_stmt_states(self, stmt_id, stmt, frame):
         fr = CUR["frame"]
         if fr is not None and fr.get("_it") is not None:
             fr["_it"][1] = "visit"
             fr["n_visit"] += 1
+        t_stmt = time.process_time()
         res = orig_css(self, stmt_id, stmt, frame)
+        t_stmt = time.process_time() - t_stmt
+        SLOW = OUT["stmt_cpu"]
+        SLOW["n"] += 1; SLOW["sum"] += t_stmt
+        if t_stmt > SLOW["max"]:
+            SLOW["max"] = round(t_stmt, 4)
+            SLOW["argmax"] = {"stmt_id": int(stmt_id), "operation": str(getattr(stmt, "operation", "")),
+                              "operator": str(getattr(stmt, "operator", "")), "method": int(frame.method_id),
+                              "phase": int(self.analysis_phase_id), "line": int(getattr(stmt, "start_row", -1)) + 1}
         if fr is not None and res is not None and getattr(res, "interruption_flag", False):
             fr["_it"][1] = "intr"
             fr["n_visit"] -= 1
@@ -230,6 +281,9 @@ def main():
         ent = CUR["entry"]
         if ent is not None:
             ent["_inv"] = []
+        root = CUR.get("p2root")
+        if root is not None:
+            root["_inv"] = []
         try:
             res = orig_as(self, frame)
         finally:
@@ -238,6 +292,10 @@ def main():
         if ent is not None:
             ent["invocations"].append(ent["_inv"])
             ent["_inv"] = None
+        if root is not None:
+            if root["detail"]:
+                root["invocations"].append(root["_inv"])
+            root["_inv"] = None
         return res
 
     ps.P2PrelimSemanticAnalysis.analyze_stmts = analyze_stmts
@@ -247,13 +305,69 @@ def main():
     P2 = {"analyze_method_calls": 0, "frames_pushed": 0, "max_stack": 0, "on": False}
     OUT["p2"] = P2
 
+    OUT["p2_roots"] = []
+    P2_DETAIL_MAX = int(os.environ.get("C13_MAX_P2_DETAIL", "400"))
+
     def analyze_method(self, method_id):
         P2["analyze_method_calls"] += 1
         P2["on"] = True
         try:
+            n_methods = len(self.loader.get_all_method_ids())
+        except Exception:
+            n_methods = 10 ** 6
+        root = {"root": int(method_id), "events": [], "invocations": [], "frames": 1, "interruptions": 0,
+                "n_methods": n_methods, "analyzed_before": sorted(int(x) for x in self.analyzed_method_list),
+                "_inv": None, "_initfail": None, "detail": len(OUT["p2_roots"]) < P2_DETAIL_MAX}
+        if not root["detail"]:
+            root["analyzed_before"] = None
+        OUT["p2_roots"].append(root)
+        CUR["p2root"] = root
+        try:
             return orig_am(self, method_id)
         finally:
             P2["on"] = False
+            CUR["p2root"] = None
+            root.pop("_inv", None); root.pop("_initfail", None)
+
+    def p2_event(root, ev):
+        if root["detail"] and len(root["events"]) < MAX_DRIVER_EVENTS:
+            root["events"].append(ev)
+
+    orig_p2_init = ps.P2PrelimSemanticAnalysis.init_compute_frame
+
+    def p2_init(self, frame, frame_stack):
+        r = orig_p2_init(self, frame, frame_stack)
+        root = CUR.get("p2root")
+        if root is not None:
+            if r is None:
+                root["_initfail"] = frame
+            else:
+                p2_event(root, ["init", int(frame.method_id)])
+        return r
+
+    ps.P2PrelimSemanticAnalysis.init_compute_frame = p2_init
+
+    orig_p2_ctms = ss.StmtStates.compute_target_method_states
+
+    def p2_ctms(self, stmt_id, stmt, status, in_states, callee_method_ids, *a, **k):
+        root = CUR.get("p2root")
+        raw = [int(x) for x in callee_method_ids]
+        res = orig_p2_ctms(self, stmt_id, stmt, status, in_states, callee_method_ids, *a, **k)
+        if root is not None:
+            if root.get("_inv") is not None and root["detail"]:
+                root["_inv"].append([int(stmt_id), raw])
+            if res is not None and getattr(res, "interruption_flag", False):
+                root["interruptions"] += 1
+                p2_event(root, ["intr", int(self.frame.method_id), int(stmt_id),
+                                [int(x) for x in res.interruption_data.callee_ids]])
+                # hand bound, now a theorem (C13_prelim_bound): every interruption of one analyze_method run puts
+                # a method on the stack that was neither analysed nor on it: at most |methods| interruptions
+                if root["interruptions"] > root["n_methods"] + 1:
+                    hard_stop("p2_interruptions", root=root["root"], interruptions=root["interruptions"],
+                              n_methods=root["n_methods"], stmt_id=int(stmt_id), method=int(self.frame.method_id))
+        return res
+
+    ss.StmtStates.compute_target_method_states = p2_ctms
 
     ps.P2PrelimSemanticAnalysis.analyze_method = analyze_method
 
@@ -263,11 +377,23 @@ def main():
     def stack_add(self, element):
         ent = CUR["entry"]
         if ent is not None and not getattr(element, "is_meta_frame", False):
-            ent_event(ent, ["push", [int(element.caller_id), int(element.call_stmt_id), int(element.method_id)]])
+            site = (int(element.caller_id), int(element.call_stmt_id), int(element.method_id))
+            ent_event(ent, ["push", list(site)])
             ent["frames"] += 1
+            if site[0] >= 0:
+                c = ent["_per_site"].get(site, 0) + 1
+                ent["_per_site"][site] = c
+                # C13_frames_bound: at most B + 1 descents per call site and entry point
+                if c > 4 * (OUT["consts"]["B"] + 1) + 8:
+                    ent.pop("_per_site", None)
+                    hard_stop("p3_frames_per_site", entry=ent["entry"], site=list(site), frames=c, B=OUT["consts"]["B"])
         if P2["on"]:
             P2["frames_pushed"] += 1
             P2["max_stack"] = max(P2["max_stack"], len(self._stack) + 1)
+            root = CUR.get("p2root")
+            if root is not None and len(self._stack) > 0:
+                root["frames"] += 1
+                p2_event(root, ["push", int(element.method_id)])
         return orig_stack_add(self, element)
 
     def stack_pop(self):
@@ -279,6 +405,10 @@ def main():
             else:
                 ent_event(ent, ["done", int(el.method_id)])
             ent["_initfail"] = None
+        root = CUR.get("p2root")
+        if root is not None and el is not None:
+            p2_event(root, ["initFail" if root["_initfail"] is el else "done", int(el.method_id)])
+            root["_initfail"] = None
         return el
 
     cs.ComputeFrameStack.add, cs.ComputeFrameStack.pop = stack_add, stack_pop
@@ -321,7 +451,7 @@ def main():
     def afs(self, frame_stack, global_space, sfg):
         entry_frame = frame_stack[1]
         ent = {"entry": int(entry_frame.method_id), "events": [], "invocations": [], "frames": 1,
-               "interruptions": 0, "requests": 0, "max_path": 0, "_inv": None, "_initfail": None,
+               "interruptions": 0, "requests": 0, "max_path": 0, "_inv": None, "_initfail": None, "_per_site": {},
                "R": int(self.max_analysis_round)}
         OUT["p3"].append(ent)
         CUR["entry"] = ent
@@ -333,7 +463,7 @@ def main():
                                for k, v in self.call_site_analyze_counter.items()]
             ent["paths"] = sorted([[int(c.caller_id), int(c.call_stmt_id), int(c.callee_id)] for c in p.path]
                                   for p in self.path_manager.paths)
-            ent.pop("_inv", None); ent.pop("_initfail", None)
+            ent.pop("_inv", None); ent.pop("_initfail", None); ent.pop("_per_site", None)
 
     gs.P3GlobalSemanticAnalysis.analyze_frame_stack = afs
 
@@ -566,12 +696,73 @@ def main():
 
     ta.PathFinder.propagate_taint = propagate_taint
 
+    # ---- path reconstruction: visited-set DFS over the SFG (one call per flow found)
+    OUT["dfs"] = []
+    DFS_DETAIL_MAX = int(os.environ.get("C13_MAX_DFS_DETAIL", "12"))
+
+    class CountingGraph:
+        """stands in for the networkx graph during one reconstruct_define_use_path call: counts and logs the
+        nodes whose successors the DFS asks for (= the nodes it expands)"""
+        def __init__(self, g, rec):
+            self.__dict__["_g"] = g
+            self.__dict__["_rec"] = rec
+        def successors(self, u):
+            rec = self._rec
+            rec["expansions"] += 1
+            if rec["detail"]:
+                rec["expanded"].append(rec["_index"].get(u, -1))
+            # a visit-once search expands every node at most once (C13_closure_bound: <= 1 + |E| pops)
+            if rec["expansions"] > rec["n"] + rec["edges"] + 2:
+                hard_stop("dfs_expansions", expansions=rec["expansions"], nodes=rec["n"], edges=rec["edges"])
+            return self._g.successors(u)
+        def __getattr__(self, k):
+            return getattr(self._g, k)
+        def __bool__(self):
+            return True
+        def __len__(self):
+            return len(self._g)
+        def __iter__(self):
+            return iter(self._g)
+        def __contains__(self, x):
+            return x in self._g
+
+    orig_rdup = ta.PathFinder.reconstruct_define_use_path
+
+    def rdup(self, source, sink):
+        g = self.ta.sfg
+        detail = len([d for d in OUT["dfs"] if d.get("detail")]) < DFS_DETAIL_MAX
+        rec = {"n": g.number_of_nodes(), "edges": g.number_of_edges(), "expansions": 0, "expanded": [], "detail": detail}
+        nodes = list(g.nodes)
+        rec["_index"] = {n: i for i, n in enumerate(nodes)}
+        if detail:
+            rec["succ"] = [[rec["_index"][v] for v in g.successors(u)] for u in nodes]
+            rec["source"] = rec["_index"].get(source, -1)
+            rec["sink"] = rec["_index"].get(sink, -1)
+        OUT["dfs"].append(rec)
+        self.ta.sfg = CountingGraph(g, rec)
+        t = time.process_time()
+        try:
+            return orig_rdup(self, source, sink)
+        finally:
+            self.ta.sfg = g
+            rec["cpu"] = round(time.process_time() - t, 4)
+            rec.pop("_index", None)
+
+    ta.PathFinder.reconstruct_define_use_path = rdup
+
     orig_ff = ta.TaintAnalysis.find_flows
     OUT["taint_pairs"] = []
 
+    OUT["flows_found"] = 0
+
     def find_flows(self, sources, sinks):
         OUT["taint_pairs"].append([len(sources), len(sinks)])
-        return orig_ff(self, sources, sinks)
+        r = orig_ff(self, sources, sinks)
+        try:
+            OUT["flows_found"] += len(r)
+        except Exception:
+            pass
+        return r
 
     ta.TaintAnalysis.find_flows = find_flows
 
